@@ -11,6 +11,7 @@ from __future__ import annotations
 
 import datetime as dt
 import math
+import gc
 import os
 import random
 import shutil
@@ -296,6 +297,12 @@ class QuerySim:
             return None
         spec = op['spec']
         path = os.path.join(self.sandbox, 'missions.sqlite')
+        if spec.get('rel'):
+            os.makedirs(os.path.join(self.sandbox, 'a'), exist_ok=True)
+            os.makedirs(os.path.join(self.sandbox, 'b'), exist_ok=True)
+            path = os.path.join(self.sandbox, 'a', 'missions.sqlite')
+            build_db(os.path.join(self.sandbox, 'b', 'missions.sqlite'),
+                     {'seed': 4711, 'nairports': 5, 'nflights': 6, 'max_inst': 3, 'ndays': 3, 'ties': False})
         if spec.get('shipped'):
             if _SHIPPED is None:
                 return None
@@ -308,7 +315,14 @@ class QuerySim:
             dbmod.sqlite3 = SeededSqlite(dbmod.sqlite3, spec.get('seed', 1) if not spec.get('shipped') else 7)
         self.sql_seam = dbmod.sqlite3
         self.model = Model(path)
-        self.db = Database(path)
+        self.db_path = path
+        if spec.get('rel'):
+            os.chdir(os.path.join(self.sandbox, 'a'))
+            self.db = Database('missions.sqlite')
+            os.chdir(os.path.join(self.sandbox, 'b'))
+            self.bump('db_relative_path_then_chdir')
+        else:
+            self.db = Database(path)
         self.db_spec = spec
         self.bump('db_shipped' if spec.get('shipped') else 'db_generated')
         return len(self.model.rows)
@@ -396,7 +410,18 @@ class QuerySim:
             return None
         feat = self._features(q)
         try:
-            r = self.db(q['real'])
+            if op.get('temp_db'):
+                # a throw-away Database object: Database(path)(query); the result is consumed after
+                # the object has been dropped
+                from AEIC.missions import Database
+
+                tmp = Database(self.db_path)
+                r = tmp(q['real'])
+                del tmp
+                gc.collect()
+                self.bump('exec_on_temporary_database')
+            else:
+                r = self.db(q['real'])
         except Exception as e:  # noqa: BLE001
             if q['fid'] is not None and not self._filt(q):
                 self.fail('emptyfilter.raised', f'{type(e).__name__}: {e}', **feat)
@@ -411,7 +436,8 @@ class QuerySim:
                 self.fail('count.mismatch', f'count {r}, model {exp}', **feat)
             self.bump('count_checked')
             return r
-        self.gens[op['g']] = {'gen': r, 'q': op['q'], 'got': [], 'done': False, 'feat': feat}
+        self.gens[op['g']] = {'gen': r, 'q': op['q'], 'got': [], 'done': False, 'feat': feat,
+                              'temp': bool(op.get('temp_db'))}
         return 'gen'
 
     def _expected(self, g):
@@ -438,7 +464,7 @@ class QuerySim:
                 self._check_complete(g)
                 break
             except Exception as e:  # noqa: BLE001
-                if self.closed:
+                if self.closed and not g.get('temp'):
                     g['done'] = True
                     self.bump('gen_after_close_raised')
                     return 'closed:' + type(e).__name__
@@ -688,6 +714,11 @@ def draw_config(rng):
         spec.update(nflights=150, max_inst=300, ties=True, huge=True)   # ~20 000 instances: small fractions
     # the process time zone is part of the environment the simulator owns: dates mean UTC days
     tz = rng.choice(['UTC', 'UTC', 'Asia/Tokyo', 'America/Los_Angeles', 'Pacific/Kiritimati'])
+    if rng.random() < 0.2:
+        # the working directory is process state the simulator owns: the database is opened by a
+        # relative path and the process then moves to a directory holding another database of the
+        # same name
+        spec['rel'] = True
     return {'spec': spec, 'steps': rng.randint(6, 30), 'nq': rng.randint(1, 4),
             'share_filter': rng.random() < 0.4, 'tz': tz}
 
@@ -724,7 +755,10 @@ def script(rng, cfg, sim):
         r = rng.random()
         if r < 0.3 or not sim.gens:
             ng += 1
-            yield {'op': 'exec', 'q': rng.choice(qids), 'g': f'g{ng}'}
+            op = {'op': 'exec', 'q': rng.choice(qids), 'g': f'g{ng}'}
+            if rng.random() < 0.15:
+                op['temp_db'] = True
+            yield op
         elif r < 0.42:
             yield {'op': 'to_sql', 'q': rng.choice(qids)}
         elif r < 0.75 and live:
